@@ -12,7 +12,7 @@ class C16(PureCheck):
     pid = "C16"
     warm_every = 3
     rule = ("str and FmtStr inputs: layouts of <=2 runs of length 0..3 (quick, + sampled 3-run layouts with runs up to "
-            "length 4) / <=3 runs of length 0..3 sampled 1-in-4 + <=2 runs of length 0..4 (thorough) over "
+            "length 4) / all <=2 runs of length 0..3 + 60k sampled 3-run layouts + 40k sampled layouts with runs up to length 4 (thorough) over "
             "{x, y, space, tab, newline} x {plain, red, bold+on_blue} - formatting changing inside words and inside "
             "whitespace, empty runs with their own formatting inside/at the edge of whitespace and words, leading/trailing/multiple whitespace, no words at all - and columns 1..6; validated by TLC against "
             "the greedy reference wrap of Wrap.tla. distinct_nontrivial = distinct (layout, columns) with >=2 words or a "
@@ -25,8 +25,14 @@ class C16(PureCheck):
 
     def inputs(self, tier, rng):
         if tier == "thorough":
-            pool = [l for k, l in enumerate(layouts(3, 3, alphabet=ALPHA, atts=ATTS)) if len(l) < 3 or k % 16 == 0]
-            pool += [l for k, l in enumerate(layouts(2, 4, alphabet=ALPHA, atts=ATTS)) if k % 3 == 0]
+            # every layout of <= 2 runs of length 0..3 (~220k) + sampled 3-run layouts + sampled runs of length 4
+            pool = list(layouts(2, 3, alphabet=ALPHA, atts=ATTS))
+            runs3 = [[list(t), list(a)] for t in fmtlib.texts_upto(ALPHA, 3) for a in ATTS]
+            runs4 = [[list(t), list(a)] for t in fmtlib.texts_upto(ALPHA, 4, 1) for a in ATTS]
+            for _ in range(60000):
+                pool.append([rng.choice(runs3) for _ in range(3)])
+            for _ in range(40000):
+                pool.append([rng.choice(runs4) for _ in range(rng.choice([2, 3]))])
         else:
             pool = [l for k, l in enumerate(layouts(2, 3, alphabet=ALPHA, atts=ATTS)) if len(l) < 2 or k % 8 == 0]
             runs4 = [[list(t), list(a)] for t in fmtlib.texts_upto(ALPHA, 4, 1) for a in ATTS]
